@@ -39,10 +39,13 @@ var (
 	wrBook      = WorldRun{World: "book", Quick: b(2, 2, 2), Thorough: b(3, 2, 3), OneEnv: true}
 	wrBookTiny  = WorldRun{World: "booktiny", Quick: b(3, 3, 2), Thorough: b(4, 3, 2), OneEnv: true}
 	wrStake     = WorldRun{World: "stake", Quick: b(2, 2, 2), Thorough: b(3, 2, 2), OneEnv: true}
+	wrPoolFee   = WorldRun{World: "poolfee", Quick: b(2, 2, 1), Thorough: b(3, 3, 2), OneEnv: true}
 )
 
 // txWorlds are the worlds over which the generic per-transaction monitors run.
-func txWorlds() []WorldRun { return []WorldRun{wrPay, wrCoin, wrPool, wrBook, wrStake, wrBookTiny} }
+func txWorlds() []WorldRun {
+	return []WorldRun{wrPay, wrCoin, wrPool, wrBook, wrStake, wrBookTiny, wrPoolFee}
+}
 
 func init() {
 	regExplore("C01", txWorlds(), one(monitors.Conservation{}))
@@ -65,7 +68,8 @@ func init() {
 	// C05 keeps the history-dependent items of the pay world (replays, forged bodies carrying an earlier signature)
 	regExplore("C05", append([]WorldRun{wrPayReplay}, txWorlds()[1:]...), one(monitors.Authorization{}))
 	regExplore("C22", []WorldRun{wrCoin, wrPool}, one(monitors.Registry{}))
-	regExplore("C27", txWorlds(), one(monitors.Fees{}))
+	// paytable: the pay world under a price table denominated in a custom coin
+	regExplore("C27", append(txWorlds(), WorldRun{World: "paytable", Quick: b(2, 2, 1), Thorough: b(2, 2, 2), MenuFilter: noReplay, OneEnv: true}), one(monitors.Fees{}))
 	regExplore("C04", []WorldRun{wrPayReplay}, one(monitors.OnceInOrder{}))
 	// C07: the transaction worlds, the block-environment worlds (evidence, absences, block
 	// times, period boundaries), then the byte-edit neighbourhoods
